@@ -8,7 +8,7 @@
     lr.Parser.Parse / ParseAndBuildAST, for every grammar, table and input. *)
 From Coq Require Import List ZArith.
 From Algo.Grammar Require Import CFG.
-From Algo.C11 Require Import Model ModelPrec ModelSLR ModelLR1 Spec Proofs ProofsTerm ProofsOracle ProofsPrec ProofsPrecExpr ProofsLR0 ProofsSLR ProofsCLR ProofsLALR ProofsChain ProofsChain2 ProofsFuel ProofsGen ProofsClosure1 ProofsComplete ProofsCompleteSLR ProofsCompleteLALR.
+From Algo.C11 Require Import Model ModelPrec ModelSLR ModelLR1 Spec Proofs ProofsTerm ProofsOracle ProofsPrec ProofsPrecExpr ProofsLR0 ProofsSLR ProofsCLR ProofsLALR ProofsChain ProofsChain2 ProofsFuel ProofsGen ProofsClosure1 ProofsComplete ProofsCompleteSLR ProofsCompleteLALR ProofsTerm2.
 Import ListNotations.
 
 (** Callbacks.  [Parse(tokenF, prodF)] takes two optional callbacks (either may be nil) and
@@ -123,9 +123,12 @@ Proof. intros ops ls o1 o2. apply prec_grouping. Qed.
       and [C11_constructions_agree]); tied to the Go code by the per-run table equality, and
       additionally searched per instance against the oracle [lang_upto] (proved exact up to its
       bound) and witnessed longer sentences;
-    - that constructed tables pass [term_ok], i.e. that the driver also terminates on NON-sentences
-      over constructed tables (so that "not accepted" becomes "Rejected" in [recognises]): not
-      proved (it needs conflict-free => no derivation cycle), evaluated per table. *)
+    - that the driver also terminates on NON-sentences over constructed tables (so that "not
+      accepted" becomes "Rejected" in [recognises]): THEOREM for the modelled canonical LR(1)
+      construction and every valid grammar whose non-terminals all generate
+      ([C11_clr_terminates], [C11_clr_recognises], [C11_full_clr_clause]; the hypothesis is
+      necessary: [C11_nongenerating_hangs_refuted]); for the SLR and LALR tables it is not proved
+      ([C11_slr_terminates_full], [C11_lalr_terminates_full]) and [term_ok] is evaluated per table. *)
 Definition reduced (G : gram) : Prop :=
   (forall A, In A (nonterms G) -> exists u v, derives G [Nt (start G)] (u ++ Nt A :: v)) /\
   (forall A, In A (nonterms G) -> exists x, derives G [Nt A] (map Tm x)).
@@ -175,9 +178,10 @@ Qed.
     stack [known ++ rest] on that lookahead (so [term_ok B] rejects a table only when such a
     run of [Parse] exists); a table accepted with bound [B] is accepted with every larger bound.
     NOT proved: that the tables of the modelled constructions always pass [term_ok] for some
-    computable [B].  This needs "conflict-free => no derivation cycle A =>+ A reachable in the
-    automaton", which is the LR correctness theorem (completeness + determinism) and is beyond
-    this development; [term_ok 400] is therefore evaluated on every table on every run. *)
+    computable [B] ("conflict-free => no derivation cycle A =>+ A reachable in the automaton");
+    [term_ok 400] is therefore evaluated on every table on every run.  Termination of the driver
+    on every input over the modelled canonical LR(1) tables is proved by another route, without
+    [term_ok]: [C11_clr_terminates] below. *)
 Theorem C11_term_ok_exact :
   forall (tbl : table) (B : nat) (a : look) (known rest : list Z) (inp : list nat) (out : list event),
     sim_run B tbl a known = SimLoop -> hd_error inp = a ->
@@ -458,6 +462,93 @@ Proof.
   split; [rewrite E0, E1|rewrite E1, E2]; reflexivity.
 Qed.
 
+(** TERMINATION ON EVERY INPUT over the tables of the modelled canonical LR(1) construction (no
+    precedence declarations).  For every valid grammar all of whose declared non-terminals
+    generate a terminal string ([generating], the second half of [reduced]), every conflict-free
+    table returned by [build_clr] and EVERY token list [w] there is a fuel [F] for which [Parse]
+    does not return [Hang] (it accepts or rejects), and more fuel never changes the result.
+    Proof (ProofsTerm2.v): every item of a state on the driver's stack is semantically valid for
+    the string spelled by the stack (CLOSURE and GOTO preserve "S' =>* delta A z with the lookahead
+    at the head of z", by soundness of the computed nullable set and FIRST sets and because every
+    non-terminal generates); hence the valid-prefix property: an ACTION entry for the current
+    state and token means that the input read so far followed by that token can be completed to
+    a sentence; the driver accepts that sentence ([C11_clr_complete]) and, until the token is
+    shifted, makes the same moves on it as on the actual input; so every token is shifted, or the
+    input rejected, after finitely many steps.  The bound is not given in closed form. *)
+Theorem C11_clr_terminates :
+  forall (G : gram) (fuel : nat) (tbl : table) (w : list nat),
+    valid_grammar G -> generating G -> build_clr fuel G [] = BuiltOk tbl ->
+    exists F, parse F tbl w <> Hang /\ forall f, F <= f -> parse f tbl w = parse F tbl w.
+Proof.
+  intros G fuel tbl w Hv Hg Hb. destruct (canonical1 fuel G) as [C|] eqn:EC.
+  - destruct (clr_no_hang G Hv Hg fuel C EC tbl Hb w) as [F HF]. exists F. split; [exact HF|].
+    intros f Hle. now apply parse_fuel_irrelevant.
+  - unfold build_clr, finish, clr_raw in Hb. rewrite EC in Hb. discriminate.
+Qed.
+
+(** Hence the full [recognises] clause of the property for the modelled canonical LR(1)
+    construction: for every input the driver stabilises on a verdict; "accepted" comes with a
+    rightmost derivation in reverse and the AST, and "rejected" means that the input is not a
+    sentence. *)
+Theorem C11_clr_recognises :
+  forall (G : gram) (fuel : nat) (tbl : table),
+    valid_grammar G -> generating G -> build_clr fuel G [] = BuiltOk tbl -> recognises G tbl.
+Proof.
+  intros G fuel tbl Hv Hg Hb w.
+  destruct (C11_clr_terminates G fuel tbl w Hv Hg Hb) as [F [HF Hm]]. exists F. split; [exact Hm|].
+  destruct (parse F tbl w) as [evs|r e|] eqn:E; [| |congruence].
+  - exact (C11_clr_parser_sound G fuel [] tbl F w evs (proj1 (proj1 Hv)) Hb E).
+  - intros HL. destruct (C11_clr_complete G fuel tbl w Hv Hb HL) as [f [evs Hf]].
+    assert (Hnh : parse f tbl w <> Hang) by (rewrite Hf; discriminate).
+    pose proof (parse_fuel_irrelevant tbl w f (Nat.max F f) Hnh (Nat.le_max_r _ _)) as E1.
+    pose proof (Hm (Nat.max F f) (Nat.le_max_l _ _)) as E2. congruence.
+Qed.
+
+(** The canonical-LR clause of [C11_full], for the modelled construction (a build function is the
+    modelled construction at some fuel, returning a table only for [BuiltOk]). *)
+Theorem C11_full_clr_clause :
+  forall (G : gram) (fuel : nat) (t : table),
+    valid_grammar G -> reduced G -> build_clr fuel G [] = BuiltOk t -> recognises G t.
+Proof. intros G fuel t Hv [_ Hg]. exact (C11_clr_recognises G fuel t Hv Hg). Qed.
+
+(** The hypothesis [generating] cannot be dropped: for S -> d C, C -> A Y M, Y -> a, M -> M c,
+    A -> A | b (valid for CFG.Verify; M generates nothing, so FIRST(M) is empty and the item
+    [C -> A . Y M, $] contributes no closure item for Y) the modelled canonical LR(1) and LALR(1)
+    constructions return one and the same conflict-free table, over which the driver reduces
+    A -> A forever on the input "d b a": [Parse] returns [Hang] for every fuel.  (The Go
+    implementation behaves in the same way on this grammar: its canonical table is conflict-free
+    and lr.Parser.Parse does not return on "d b a"; non-reduced grammars are outside the domain
+    of [C11_full].) *)
+Theorem C11_nongenerating_hangs_refuted :
+  exists (G : gram) (tbl : table) (w : list nat),
+    valid_grammar G /\ build_clr 50 G [] = BuiltOk tbl /\ build_lalr 50 G [] = BuiltOk tbl /\
+    forall f, parse f tbl w = Hang.
+Proof.
+  exists hang_G, hang_tbl, [3; 1; 0]. split; [exact hang_G_valid|].
+  split; [exact (proj1 hang_G_built)|]. split; [exact (proj2 hang_G_built)|]. exact hang_G_hangs.
+Qed.
+
+(** NOT proved: the same statement for the SLR and LALR tables.  The proof above does not
+    transfer: it rests on the valid-prefix property (an ACTION entry for state and token implies
+    that the consumed input followed by the token is a prefix of a sentence), which only the
+    canonical LR(1) lookaheads have; SLR and LALR tables may perform reductions on a token that
+    cannot follow and detect the error later.  Remaining obligation: a run of consecutive
+    reductions of the driver on a fixed lookahead over a conflict-free SLR / LALR table is finite
+    (a cycle of such reductions returns to the same stack, hence exhibits A =>+ A inside a state
+    of the LR(0) automaton, and the FOLLOW / merged lookaheads of the items of that cycle then
+    collide with the action contributed by the item that introduced A into the state).  For
+    these tables [term_ok 400] is evaluated on every table on every run and
+    [C11_driver_terminates] applies to the tables that pass it. *)
+Definition C11_slr_terminates_full : Prop :=
+  forall (G : gram) (fuel : nat) (tbl : table) (w : list nat),
+    valid_grammar G -> generating G -> build_slr fuel G [] = BuiltOk tbl ->
+    exists F, parse F tbl w <> Hang /\ forall f, F <= f -> parse f tbl w = parse F tbl w.
+
+Definition C11_lalr_terminates_full : Prop :=
+  forall (G : gram) (fuel : nat) (tbl : table) (w : list nat),
+    valid_grammar G -> generating G -> build_lalr fuel G [] = BuiltOk tbl ->
+    exists F, parse F tbl w <> Hang /\ forall f, F <= f -> parse f tbl w = parse F tbl w.
+
 (** Witness checker for long sentences: a production sequence accepted by [lm_check] is a
     leftmost derivation of the string. *)
 Theorem C11_witness_sound :
@@ -550,3 +641,7 @@ Print Assumptions C11_lalr_complete.
 Print Assumptions C11_lalr_recognises_exactly.
 Print Assumptions C11_constructions_agree.
 Print Assumptions C11_d11a_unrepaired_table_refuted.
+Print Assumptions C11_clr_terminates.
+Print Assumptions C11_clr_recognises.
+Print Assumptions C11_full_clr_clause.
+Print Assumptions C11_nongenerating_hangs_refuted.
